@@ -166,8 +166,18 @@ def rt_bytes(text):
 def send_request(draw):
     from vlib.props.c06 import as_path, community_in, prefix_list
     ibgp = draw(st.booleans())
-    shape = draw(st.sampled_from(['announce', 'announce', 'withdraw', 'both', 'v6', 'vpn4']))
+    shape = draw(st.sampled_from(['announce', 'announce', 'withdraw', 'both', 'v6', 'vpn4', 'rr', 'bin']))
     req = {}
+    if shape == 'rr':
+        req = {'afi': draw(st.sampled_from([1, 1, 2, 25, 65535])), 'safi': draw(st.sampled_from([1, 1, 4, 128, 70])),
+               'res': draw(st.sampled_from([0, 0, 1, 255]))}
+        if draw(st.booleans()):
+            del req['res']
+        return {'ibgp': ibgp, 'shape': shape, 'req': req}
+    if shape == 'bin':
+        n = draw(st.integers(1, 3))
+        data = b''.join(ss.marked_update(draw(st.integers(0, 60000)))[0] for _ in range(n))
+        return {'ibgp': ibgp, 'shape': shape, 'req': {'hex': data.hex()}}
     if shape in ('announce', 'both'):
         a = {'1': draw(st.integers(0, 2)), '2': draw(as_path(True)), '3': draw(vs.ipv4_host)}
         for c in draw(st.sets(st.sampled_from([4, 5, 6, 7, 8, 9, 10, 16, 32]), max_size=5)):
@@ -203,7 +213,42 @@ def send_request(draw):
     return {'ibgp': ibgp, 'shape': shape, 'req': req}
 
 
+def other_send_case(case):
+    """route-refresh and bin_update: a success reply means exactly that message is on the wire"""
+    sim = make_state('ESTABLISHED', ibgp=case['ibgp'])
+    c = ss.live_connectors(sim)[-1]
+    mark = sim.mark()
+    out = []
+    if case['shape'] == 'rr':
+        req = case['req']
+        code, body = sim.rest('POST', '/v1/peer/%s/send/route-refresh' % PEER, json_body=req)
+    else:
+        data = bytes.fromhex(case['req']['hex'])
+        req = {'binary_data': case['req']['hex']}
+        code, body = sim.rest('POST', '/v1/peer/%s/send/bin_update' % PEER, json_body=req)
+    sim.reactor.settle(fire_due=True)
+    wr = b''.join(p for _, k, cid, p in sim.since(mark) if k == 'write' and cid == c.id)
+    other = [cid for _, k, cid, p in sim.since(mark) if k == 'write' and cid != c.id]
+    ok = code == 200 and isinstance(body, dict) and body.get('status') is True
+    if other:
+        out.append(('send:wrong-connection', 'bytes written to connectors %r' % (other,)))
+    if not ok:
+        if wr:
+            out.append(('send:failure-reported-but-sent:%s' % case['shape'], 'reply %s %r but %s written' % (code, body, wr.hex()[:80])))
+        return out
+    if case['shape'] == 'rr':
+        want = [rc.route_refresh(req['afi'], req['safi'], req.get('res', 0), t) for t in (rc.ROUTE_REFRESH_CISCO, rc.ROUTE_REFRESH)]
+        if wr not in want:
+            out.append(('send:route-refresh:not-the-request', 'requested %r, on the wire %s' % (req, wr.hex())))
+    else:
+        if wr != data:
+            out.append(('send:bin-update:not-the-request', 'requested %s, on the wire %s' % (data.hex()[:120], wr.hex()[:120])))
+    return out
+
+
 def send_case(case):
+    if case['shape'] in ('rr', 'bin'):
+        return other_send_case(case)
     ibgp, req = case['ibgp'], case['req']
     sim = make_state('ESTABLISHED', ibgp=ibgp)
     c = ss.live_connectors(sim)[-1]
